@@ -254,21 +254,21 @@ pub fn dec(bnry: &Token) -> Value {
 
 #[cfg(feature = "i64")]
 pub fn binary(bnry: &Token) -> Value {
-  let binary_str: String = bnry.chars.iter().collect();
+  let binary_str: String = bnry.chars.iter().filter(|c| **c != '_').collect();
   let num = i64::from_str_radix(&binary_str, 2).unwrap();
   Value::I64(Ref::new(num))
 }
 
 #[cfg(feature = "i64")]
 pub fn oct(octl: &Token) -> Value {
-  let hex_str: String = octl.chars.iter().collect();
+  let hex_str: String = octl.chars.iter().filter(|c| **c != '_').collect();
   let num = i64::from_str_radix(&hex_str, 8).unwrap();
   Value::I64(Ref::new(num))
 }
 
 #[cfg(feature = "i64")]
 pub fn hex(hxdcml: &Token) -> Value {
-  let hex_str: String = hxdcml.chars.iter().collect();
+  let hex_str: String = hxdcml.chars.iter().filter(|c| **c != '_').collect();
   let num = i64::from_str_radix(&hex_str, 16).unwrap();
   Value::I64(Ref::new(num))
 }
